@@ -9,11 +9,20 @@ RULE = ("operation histories over a small integer universe (ops: add, remove, dr
         "RNG outcome class, driven through whichever random primitive the code calls); "
         "exhaustive for short histories, seeded random for long ones; after EVERY step the implementation's "
         "output, its _edges list (exactly) and its _edge_hashmap (as sorted pairs) are compared with the model; "
-        "elements are small ints, run-time-built tuples or large ints (equal but not identical objects) in turn; "
-        "non-trivial = history containing a successful remove; distinct by full op list")
+        "elements are small ints, run-time-built tuples or large ints (equal but not identical objects) in turn, or "
+        "members of a pool of DISTINCT ELEMENTS WITH EQUAL HASHES (-1/-2, 0/2^61-1/-(2^61-1), 1/2^61, tuples and "
+        "frozensets of those, instances of a user class with a two-valued __hash__): all short histories (length <= 3 "
+        "quick / <= 4 thorough) over every window of three consecutive pool members, and half of the mode-tagged random "
+        "histories; the ITERATION PROTOCOL is part of the history language (each such operation is observed as two or "
+        "three plain iter / contains / len answers, every one judged by the checker and compared with the model): two "
+        "iterators alive at once advanced in turn (zip), an iterator abandoned half-way + a fresh pass + the old one "
+        "resumed, nested loops (outer pass and an inner pass), list(ds) twice, membership and len() inside a loop "
+        "body; non-trivial = history containing a successful remove; distinct by full op list")
 EXHAUSTIVE = {"quick": True, "thorough": True}
 EXPLANATION = ("general theorems (all histories) in Props/C20.v; correspondence exhaustive over all histories of "
-               "length <= 4 (quick) / <= 5 (thorough) on a 3-element universe plus random long histories")
+               "length <= 4 (quick) / <= 5 (thorough) on a 3-element universe (each followed by the iteration-protocol "
+               "observations), all histories of length <= 3 / <= 4 on 3-element universes of hash-colliding distinct "
+               "elements, plus random long histories")
 ASSUMPTIONS = ["random.choice(seq) returns seq[i] for the i the oracle scripts (CPython)"]
 TRUSTED = []
 TECHNIQUE = ("Coq proof (invariant + refinement to a plain set, induction over histories) "
@@ -29,7 +38,8 @@ LEVEL_NOTE = ("Trusted: Coq kernel; extraction (ExtrOcamlBasic) + OCaml driver +
               "correspondence; CPython random.choice indexing. No axioms (Print Assumptions: closed under the "
               "global context).")
 
-OPS = ["add", "remove", "draw", "contains", "len", "iter", "-", "sweep"]
+OPS = ["add", "remove", "draw", "contains", "len", "iter", "-", "sweep", "two-live-iterators", "abandoned-iterator",
+       "nested-iteration", "list-twice", "contains/len-inside-loop"]
 
 
 def _all_ops(universe, maxdraw):
@@ -57,46 +67,105 @@ def generate(rng, tier):
     # exhaustive short histories over add/remove of a 3-element universe + one observer at the end
     muts = [o for o in allops if o[0] in (0, 1)]
     obs = [o for o in allops if o[0] not in (0, 1)]
+    # the iteration protocol, observed at the end of every short history: two live iterators, an abandoned and
+    # resumed iterator around a fresh pass, nested loops, two full passes, membership / len inside a loop body
+    proto = [[8, 0], [9, 1], [10, 0], [12, 1], [11, 0], [12, 3]]
     for n in range(1, maxlen + 1):
         for seq in itertools.product(muts, repeat=n):
-            yield {"ops": [list(o) for o in seq] + [[5, 0], [4, 0], [7, 0]] + [list(o) for o in obs[:4]]}
+            yield {"ops": [list(o) for o in seq] + [[5, 0], [4, 0], [7, 0]] + [list(o) for o in obs[:4]] + proto}
+    # the same exhaustive short histories over universes of HASH-COLLIDING distinct elements: every window of three
+    # consecutive pool members (each contains at least one colliding pair) for length <= 2, every second window beyond
+    for n in range(1, maxlen):
+        for off in range(0, len(_POOL), 1 if n <= 2 else 2):
+            for seq in itertools.product(muts, repeat=n):
+                yield {"ops": [list(o) for o in seq] + [[5, 0], [4, 0], [7, 0]] + [list(o) for o in obs[:4]]
+                       + proto[:3], "mode": 3, "pool": off}
     nrand = 800 if tier == "quick" else 5000
-    for _ in range(nrand):
+    for i in range(nrand):
         u = rng.randint(1, 8)
         n = rng.randint(1, 40)
         ops = []
         for _ in range(n):
-            k = rng.choices([0, 1, 2, 3, 4, 5, 7], weights=[6, 5, 3, 2, 1, 1, 1])[0]
-            if k in (0, 1, 3):
+            k = rng.choices([0, 1, 2, 3, 4, 5, 7, 8, 9, 10, 11, 12], weights=[12, 10, 6, 4, 2, 2, 2, 1, 1, 1, 1, 1])[0]
+            if k in (0, 1, 3, 12):
                 ops.append([k, rng.randint(1, u)])
-            elif k == 2:
-                ops.append([2, rng.randint(0, u)])
+            elif k in (2, 9):
+                ops.append([k, rng.randint(0, u)])
             else:
                 ops.append([k, 0])
-        yield {"ops": ops}
+        c = {"ops": ops}
+        if i % 2:
+            # element type chosen explicitly; half of these use the pool of hash-colliding elements
+            c["mode"] = rng.choice([0, 1, 2, 3, 3, 3])
+            if c["mode"] == 3:
+                c["pool"] = rng.randrange(len(_POOL))
+        yield c
 
 
-def _el(a, mode):
+class _H(object):
+    """a user-defined element type whose hash takes two values only: distinct elements with equal hashes whatever
+    the interpreter's hash function is"""
+
+    def __init__(self, v):
+        self.v = v
+
+    def __hash__(self):
+        return self.v % 2
+
+    def __eq__(self, other):
+        return isinstance(other, _H) and other.v == self.v
+
+    def __repr__(self):
+        return f"_H({self.v})"
+
+
+# DISTINCT ELEMENTS WITH EQUAL HASHES, neighbours in this list collide (CPython: hash(-1) == hash(-2) == -2,
+# hash(n) == n mod 2**61-1 for ints, tuple / frozenset hashes are functions of the member hashes); every entry is a
+# constructor: the element is BUILT AT RUN TIME on every use (equal but distinct objects)
+_M61 = 2 ** 61 - 1
+_POOL = [
+    lambda: tuple([-1, 3]), lambda: tuple([-2, 3]),
+    lambda: int("0"), lambda: int(str(_M61)),
+    lambda: int("-1"), lambda: int("-2"),
+    lambda: tuple([0, 1]), lambda: tuple([int(str(_M61)), 1]),
+    lambda: int("1"), lambda: int(str(_M61 + 1)),
+    lambda: _H(0), lambda: _H(2), lambda: _H(4),
+    lambda: frozenset([-1, 7]), lambda: frozenset([-2, 7]),
+    lambda: int(str(-_M61)), lambda: tuple([3, -2]), lambda: tuple([3, -1]),
+]
+
+
+def _el(a, mode, off=0):
     """the element for universe member a.  mode 0: the int itself (small ints are interned: identity == equality);
     mode 1: a sorted 2-tuple BUILT AT RUN TIME on every use (equal but distinct objects, as the rewiring code does with
-    tuple(sorted(e))); mode 2: a large int (> 256, not interned) built at run time."""
+    tuple(sorted(e))); mode 2: a large int (> 256, not interned) built at run time; mode 3: member (a - 1 + off) of
+    the pool of hash-colliding distinct elements (ints, tuples, frozensets, instances of a user class)."""
     if mode == 1:
         return tuple([a, a + 1])
     if mode == 2:
         return int(str(1000 + a))
+    if mode == 3:
+        return _POOL[(a - 1 + off) % len(_POOL)]()
     return a
 
 
-def _un(x, mode):
+def _un(x, mode, off=0):
     if mode == 1:
         return x[0] if isinstance(x, tuple) and len(x) == 2 and x[1] == x[0] + 1 else -1
     if mode == 2:
-        return x - 1000 if isinstance(x, int) else -1
+        return x - 1000 if isinstance(x, int) and not isinstance(x, bool) else -1
+    if mode == 3:
+        for i, mk in enumerate(_POOL):
+            p = mk()
+            if type(p) is type(x) and p == x:
+                return (i - off) % len(_POOL) + 1
+        return -1
     return x
 
 
-def _state(d, mode=0):
-    return [[_un(x, mode) for x in d._edges], sorted([[_un(k, mode), v] for k, v in d._edge_hashmap.items()])]
+def _state(d, mode=0, off=0):
+    return [[_un(x, mode, off) for x in d._edges],
+            sorted([[_un(k, mode, off), v] for k, v in d._edge_hashmap.items()])]
 
 
 def impl(case):
@@ -104,8 +173,17 @@ def impl(case):
     d = DrawSet()
     trace = []
     mode = case.get("mode", len(case["ops"]) % 3)
+    off = case.get("pool", 0)
+
+    def _el(a, mode):                      # noqa: F811 - the pool offset of this case
+        return _EL(a, mode, off)
+
+    def _un(x, mode):                      # noqa: F811
+        return _UN(x, mode, off)
+
     for k, a in case["ops"]:
         out = None
+        more = []                          # further observations of the same operation (one model op each)
         try:
             if k == 0:
                 d.add(_el(a, mode))
@@ -138,16 +216,95 @@ def impl(case):
                 out = [3, int(_el(a, mode) in d)]
             elif k == 4:
                 out = [4, len(d)]
+            elif k == 8:
+                # TWO ITERATORS ALIVE AT ONCE (zip(d, d)), advanced in turn until both are exhausted
+                it1, it2 = iter(d), iter(d)
+                l1, l2, live, guard = [], [], [True, True], 4 * len(d) + 8
+                while (live[0] or live[1]) and guard > 0:
+                    guard -= 1
+                    for j, (it, lst) in enumerate(((it1, l1), (it2, l2))):
+                        if live[j]:
+                            try:
+                                lst.append(_un(next(it), mode))
+                            except StopIteration:
+                                live[j] = False
+                out = [5, l1]
+                more = [[5, l2]]
+            elif k == 9:
+                # AN ITERATOR ABANDONED HALF-WAY, A FRESH FULL PASS, then the old iterator is resumed
+                it = iter(d)
+                head = []
+                for _ in range(a):
+                    try:
+                        head.append(_un(next(it), mode))
+                    except StopIteration:
+                        break
+                fresh = [_un(x, mode) for x in d]
+                rest = [_un(x, mode) for x in it]
+                out = [5, fresh]
+                more = [[5, head + rest]]
+            elif k == 10:
+                # NESTED LOOPS: the outer pass and the inner passes made inside its body
+                outer, inners, guard = [], [], 4 * len(d) + 8
+                for x in d:
+                    outer.append(_un(x, mode))
+                    inners.append([_un(y, mode) for y in d])
+                    guard -= 1
+                    if guard <= 0:
+                        break
+                # one inner pass is reported: the first one that differs from the outer pass if there is one
+                inner = next((l for l in inners if l != outer), inners[-1] if inners else [_un(y, mode) for y in d])
+                out = [5, outer]
+                more = [[5, inner]]
+            elif k == 11:
+                # len(list(d)) twice
+                l1 = [_un(x, mode) for x in list(d)]
+                l2 = [_un(x, mode) for x in list(d)]
+                out = [5, l1]
+                more = [[5, l2], [4, len(d)]]
+            elif k == 12:
+                # MEMBERSHIP TESTS AND len() INSIDE THE BODY of a loop over the set
+                visited, answers, lens, guard = [], [], [], 4 * len(d) + 8
+                for x in d:
+                    visited.append(_un(x, mode))
+                    answers.append(int(_el(a, mode) in d))
+                    lens.append(len(d))
+                    guard -= 1
+                    if guard <= 0:
+                        break
+                if not answers:
+                    answers.append(int(_el(a, mode) in d))
+                    lens.append(len(d))
+                # one answer of each kind is reported: the first one that differs from the first answer, if any
+                out = [5, visited]
+                more = [[3, next((b for b in answers if b != answers[0]), answers[0])],
+                        [4, next((n for n in lens if n != lens[0]), lens[0])]]
             else:
                 out = [5, [_un(x, mode) for x in iter(d)]]
         except (KeyError, IndexError, ValueError):
             out = [1]
-        trace.append([out, _state(d, mode)])
+        st = _state(d, mode, off)
+        trace.append([out, st])
+        for o in more:
+            trace.append([o, st])
     return trace
 
 
+_EL, _UN = _el, _un
+
+
+_EXPAND = {7: lambda a: [[5, 0]], 8: lambda a: [[5, 0], [5, 0]], 9: lambda a: [[5, 0], [5, 0]],
+           10: lambda a: [[5, 0], [5, 0]], 11: lambda a: [[5, 0], [5, 0], [4, 0]],
+           12: lambda a: [[5, 0], [3, a], [4, 0]]}
+
+
 def _mops(case):
-    return [[5, 0] if k == 7 else [k, a] for k, a in case["ops"]]
+    """the model's operations: every observation of a harness operation is one plain operation of the model (an
+    iteration started while another one is alive is still `iter`)"""
+    out = []
+    for k, a in case["ops"]:
+        out += _EXPAND[k](a) if k in _EXPAND else [[k, a]]
+    return out
 
 
 def model_calls(case, impl_obs):
@@ -164,9 +321,11 @@ def compare(case, impl_obs, model):
         return None
     if isinstance(impl_obs, list) and impl_obs and impl_obs[0] == "!exc":
         return f"implementation raised {impl_obs[1]}"
+    mops = _mops(case)
     for i, (a, b) in enumerate(zip(impl_obs, model)):
         if a != b:
-            return f"step {i} op {case['ops'][i]}: impl {a} model {b}"
+            return f"observation {i} (model op {mops[i] if i < len(mops) else '?'}) of history {case['ops'][:12]}: " \
+                   f"impl {a} model {b}"
     return "length mismatch"
 
 
@@ -184,18 +343,26 @@ def check_verdict(case, impl_obs, raws):
 
 
 def nontrivial_key(case, impl_obs):
-    ok_remove = any(op[0] == 1 and o[0] == [0] for op, o in zip(case["ops"], impl_obs) if isinstance(o, list))
+    ok_remove = any(op[0] == 1 and o[0] == [0] for op, o in zip(_mops(case), impl_obs) if isinstance(o, list))
     return case["ops"] if ok_remove else None
 
 
 def shrink(case):
     ops = case["ops"]
+    # the element type of a case without an explicit mode depends on its length: pin it while shrinking
+    keep = {"mode": case.get("mode", len(ops) % 3)}
+    if "pool" in case:
+        keep["pool"] = case["pool"]
     for i in range(len(ops)):
-        yield {"ops": ops[:i] + ops[i + 1:]}
+        yield dict(keep, ops=ops[:i] + ops[i + 1:])
 
 
 def describe(case, impl_obs):
-    return {"ops(0=add,1=remove,2=draw,3=contains,4=len,5=iter)": case["ops"][:12],
+    mode, off = case.get("mode", len(case["ops"]) % 3), case.get("pool", 0)
+    return {"ops(0=add,1=remove,2=draw,3=contains,4=len,5=iter,7=sweep,8=two live iterators,9=abandoned iterator + "
+            "fresh pass,10=nested loops,11=list twice,12=contains/len inside a loop)": case["ops"][:12],
+            "elements": {str(a): repr(_el(a, mode, off)) for a in sorted({o[1] for o in case["ops"]
+                                                                         if o[0] in (0, 1, 3, 12)})[:10]},
             "final_state": impl_obs[-1][1] if impl_obs and isinstance(impl_obs[-1], list) else impl_obs}
 
 
